@@ -5,7 +5,7 @@
      gfun <alpha> <g> <nu> <visc> <kappa> <elev> <U> <n> z*          -> n G(z)*     (one plain step)
      fp <lo|nan> <hi|nan> <atol> <rtol> <maxit> <aitken> <n> (id a guess)*  -> n x*
      newton <id> <a> <b> <c> <guess> <hlo|nan> <hhi|nan> <maxit> <aitken> <atol> <rtol> <h> <relstep> <relax> <erronmax>
-            -> C x lo hi bounded | M x lo hi bounded | F code lo hi bounded
+            -> (C x | M x | F code) lo hi bounded n e_1 .. e_n     (e_i: points where f was evaluated, in order)
      janssen <id> <a> <b> <c> <guess>                                 -> z0 | nan *)
 let rd_par () =
   let alpha = rd_float () in let g = rd_float () in let nu = rd_float () in
@@ -45,8 +45,11 @@ let handle cmd =
       let rel = rd_bool () in let relax = rd_float () in let eom = rd_bool () in
       let cfg = { n_hard_lo = hlo; n_hard_hi = hhi; n_maxit = maxit; n_aitken = ait; n_atol = atol;
                   n_rtol = rtol; n_h = h; n_relstep = rel; n_relax = relax; n_err_on_max = eom } in
-      let (r, s) = newton_run_state (tf id a b c) cfg guess in
-      let tail = " " ^ pf s.s_lo ^ " " ^ pf s.s_hi ^ " " ^ pb s.s_bounded in
+      (* the function is wrapped so that the sequence of evaluation points is recorded *)
+      let log = ref [] in
+      let fl x = log := x :: !log; tf id a b c x in
+      let (r, s) = newton_run_state fl cfg guess in
+      let tail = " " ^ pf s.s_lo ^ " " ^ pf s.s_hi ^ " " ^ pb s.s_bounded ^ " " ^ plist pf (List.rev !log) in
       (match r with
        | NConverged x -> "C " ^ pf x ^ tail
        | NMaxIter x -> "M " ^ pf x ^ tail
